@@ -43,6 +43,13 @@ OBLIGATIONS.append(dict(name="tar_iterator_record_accounting", harness="harness/
     functions=["it_next, it_open_file_ro, strm_get_buffered_data, strm_advance_buffer, strm_destroy, drop_parent, is_sparse_region (lib/tar/src/iterator.c)"],
     bound="two consecutive members, record size any value < 2^62, the consumer reads any prefix of the member in <= 2 chunks or nothing; the archive stream hands out 1..8 bytes per call and may fail"))
 
+OBLIGATIONS.append(dict(name="tar_iterator_sparse_member", harness="harness/C04_iterator.c", sources=[], included_sources=["lib/tar/src/iterator.c"],
+    incdirs=["lib/tar/src"], defines=dict(SPARSE=1, FSMAX=10), unwind=14, tiers=["quick", "thorough"] if "C07" == "C04" else ["thorough"], timeout=600,
+    fp_map={"get_buffered_data": ["base_get"], "advance_buffer": ["base_adv"], "destroy": ["base_destroy", "it_destroy"]},
+    reach=["sparse_member", "io_error"],
+    functions=["strm_get_buffered_data, strm_advance_buffer, is_sparse_region, it_open_file_ro (lib/tar/src/iterator.c)"],
+    bound="one sparse member: real size <= 10, one mapped data region of symbolic offset and length, the archive hands out 1..8 bytes per call and may fail"))
+
 ASSUMPTIONS = ["ctype classification = C locale (stubs/vp_ctype.c)", "path lookup replaced by a symbolic graph (superset of all archives / pack files)"]
 OUTSIDE = ["zlib/xz/zstd/bzip2 on corrupt streams", "glob.c against a real directory"]
 META = dict(
